@@ -261,19 +261,22 @@ def check_case(ctx, case):
                 continue
             if p["kind"] in ("va", "vk") and (ck == "beartype" or True):
                 continue
-            made = gs.make_args(params, bad_at=i, style_seed=case["styles"][0])
-            if made is None:
-                continue
-            args, kwargs, _ = made
-            rec.calls.clear()
-            f, _ = target(True)
-            st_, val = drive(kind, f, list(args), dict(kwargs))
-            n_calls += 1
-            where = f"ill-typed parameter {p['name']} args={args!r} kwargs={kwargs!r} {info}"
-            if len(rec.calls) != 0:
-                raise Violation("body-ran-ill-typed", case, f"body ran although {where}")
-            if not (st_ == "raise" and isinstance(val, TypeCheckError)):
-                raise Violation("ill-typed-not-rejected", case, f"got {st_} {val!r} {where}")
+            for bad_none in ((False, True) if p["kind"] in ("po", "pk", "ko") else (False,)):
+                # the ill-typed value is an ordinary wrong object, or an explicit None (not acceptable for int / str / array parameters,
+                # whatever their default is)
+                made = gs.make_args(params, bad_at=i, style_seed=case["styles"][0], bad_none=bad_none)
+                if made is None:
+                    continue
+                args, kwargs, _ = made
+                rec.calls.clear()
+                f, _ = target(True)
+                st_, val = drive(kind, f, list(args), dict(kwargs))
+                n_calls += 1
+                where = f"ill-typed parameter {p['name']}{' (explicit None)' if bad_none else ''} args={args!r} kwargs={kwargs!r} {info}"
+                if len(rec.calls) != 0:
+                    raise Violation("body-ran-ill-typed", case, f"body ran although {where}")
+                if not (st_ == "raise" and isinstance(val, TypeCheckError)):
+                    raise Violation("ill-typed-not-rejected", case, f"got {st_} {val!r} {where}")
         # ---- non-binding calls
         made = gs.make_args(params, style_seed=0)
         if made is not None:
